@@ -548,6 +548,73 @@ pub fn c01(ctx: &mut Ctx) {
             super::common::all_iterator_histories(l, s, depth);
         });
     }
+    // the same on packets whose collections are empty or nearly so (an iterator that has nothing to yield still has
+    // a life: made, asked for its size, made again while the first is alive), and on the bare FCI parsers with 0..=9
+    // bytes
+    {
+        use crate::refmodel::model::*;
+        use crate::refmodel::wire::encode;
+        let fb = |kind, fci| Pkt::Fb { kind, sender: 1, media: 2, fci, pad: 0 };
+        let mut degenerate: Vec<Vec<u8>> = vec![
+            encode(&fb(Kind::Transport, Fci::Nack(vec![]))),
+            encode(&fb(Kind::Transport, Fci::Nack(vec![7]))),
+            encode(&fb(Kind::Payload, Fci::Fir(vec![(1, 2)]))),
+            encode(&fb(Kind::Payload, Fci::Sli(vec![(1, 2, 3)]))),
+            encode(&Pkt::Bye { ssrcs: vec![], reason: String::new(), pad: 0 }),
+            encode(&Pkt::Bye { ssrcs: vec![], reason: "r".into(), pad: 0 }),
+            encode(&Pkt::Sdes { chunks: vec![], pad: 0 }),
+            encode(&Pkt::Sdes { chunks: vec![Chunk { ssrc: 1, items: vec![] }], pad: 0 }),
+            encode(&Pkt::Sdes { chunks: vec![Chunk { ssrc: 0, items: vec![] }, Chunk { ssrc: 0, items: vec![] }], pad: 4 }),
+            encode(&Pkt::Rr { ssrc: 1, blocks: vec![], pad: 0 }),
+            encode(&Pkt::Sr { ssrc: 1, ntp: 2, rtp: 3, pc: 4, oc: 5, blocks: vec![], pad: 4 }),
+        ];
+        // padded forms of the first four (an FCI that is empty once the padding is taken away)
+        for i in 0..4 {
+            let p = crate::refmodel::wire::pad_packet(&degenerate[i], 4);
+            degenerate.push(p);
+        }
+        let nd = degenerate.len() as u64;
+        let depth = ctx.tier.pick(3u32, 4u32);
+        let lim = if child { 0 } else { bytes::cross_limit(ctx) };
+        ByteSpace::new("degenerate", nd, move |idx, out| { out.clear(); out.extend_from_slice(&degenerate[idx as usize]); }).run(ctx, "empty-collection-iterator-histories", lim, |s, l| {
+            l.evals += 1;
+            l.sample(|| format!("iterator histories on {}", hex_short(s)));
+            super::common::all_iterator_histories(l, s, depth);
+        });
+        ctx.run_space("bare-fci-iterator-histories", 10 * 3, |idx, l| {
+            use rtcp_types::prelude::*;
+            use rtcp_types::*;
+            l.evals += 1;
+            let body: Vec<u8> = (0..idx % 10).map(|i| (i as u8).wrapping_mul(53).wrapping_add(idx as u8)).collect();
+            let show = || format!("bare FCI {}", hex_short(&body));
+            let r = guard::catch(|| {
+                use super::common::{iterator_histories, iterator_reference};
+                match idx / 10 {
+                    0 => {
+                        if let Ok(x) = <Nack as FciParser>::parse(&body) {
+                            let r = iterator_reference(x.entries(), 200);
+                            iterator_histories(l, "Nack::entries", &|| x.entries(), &r, depth, &show);
+                        }
+                    }
+                    1 => {
+                        if let Ok(x) = <Fir as FciParser>::parse(&body) {
+                            let r = iterator_reference(x.entries(), 200);
+                            iterator_histories(l, "Fir::entries", &|| x.entries(), &r, depth, &show);
+                        }
+                    }
+                    _ => {
+                        if let Ok(x) = <Sli as FciParser>::parse(&body) {
+                            let r = iterator_reference(x.lost_macroblocks(), 200);
+                            iterator_histories(l, "Sli::lost_macroblocks", &|| x.lost_macroblocks(), &r, depth, &show);
+                        }
+                    }
+                }
+            });
+            if let Err(pi) = r {
+                l.subject_panic("iterator-history", &pi, show);
+            }
+        });
+    }
     ctx.require_hit("accepted by at least one entry point");
     ctx.require_hit("rejected by every entry point");
     if !child {
